@@ -9,7 +9,9 @@ from harness.props import metas
 
 RULE = ("metafiles v1/v2/hybrid with every subset of optional fields; sequences of 1..8 "
         "(thorough ..20) edit requests over the six editable fields, each unnamed / set "
-        "(string or list) / cleared, through edit_torrent and through `torrentfile edit`; "
+        "(string or list, list values also with blanks / tabs / commas inside one url, alone as "
+        "the option's only value and among others) / cleared, through edit_torrent and through "
+        "`torrentfile edit`; "
         "after every request the file must equal the previous one with exactly the named "
         "fields changed (raw info bytes identical when only tracker/seed fields are named); "
         "distinct by (version, present optional fields, request shapes); non-trivial when "
@@ -18,6 +20,53 @@ RULE = ("metafiles v1/v2/hybrid with every subset of optional fields; sequences 
 FIELDS = ["announce", "url-list", "httpseeds", "comment", "source", "private"]
 HASH_BEARING = [b"files", b"file tree", b"pieces", b"piece length", b"name", b"meta version",
                 b"length"]
+LIST_FIELDS = ("announce", "url-list", "httpseeds")
+# URLs that contain a separator character INSIDE the one value: blanks (unencoded, in the path and
+# in the query), a tab, Unicode spaces, leading / trailing blanks, commas and semicolons.  Given as
+# an element of a list (library) or as one command-line argument, such a value is ONE url.
+SPACED = ["http://seed.example/pub/My Files/", "http://x.y/a b", "http://t.example/a\tb",
+          "http://t.example/q?name=a b&n=1", "http://t.example/two  blanks", "http://t/nb\u00a0sp",
+          "http://t/ideo\u3000graphic", "http://t/en\u2003quad", " http://lead.example/a",
+          "http://trail.example/a ", "http://t/a b c d", "http://t.example/x?parts=1,2,3",
+          "http://t.example/a, http://t.example/b", "http://t.example/a;b c"]
+
+
+def _one(field, url):
+    req = {f: None for f in FIELDS}
+    req[field] = [url]
+    return req
+
+
+def _req(**kw):
+    req = {f: None for f in FIELDS}
+    for k, v in kw.items():
+        req[k.replace("_", "-")] = v
+    return req
+
+
+# Fixed shapes every run includes (case seeds -4 ...): list options given EXACTLY ONE value that
+# contains blanks / tabs / other separators - each of the three options alone and in combination,
+# through the command line and through the library, followed by edits of other fields (the value
+# written must stay what it was).  (version, [(request, via command line), ...])
+FIXED = {
+    -4: (1, [(_one("announce", SPACED[1]), True), (_one("url-list", SPACED[0]), True),
+             (_one("httpseeds", SPACED[2]), True), (_req(comment="later edit"), True),
+             (_one("announce", SPACED[3]), False), (_one("url-list", SPACED[2]), False),
+             (_one("httpseeds", SPACED[0]), False), (_req(source="S"), False)]),
+    -5: (2, [(_req(announce=[SPACED[0]], url_list=[SPACED[1]], httpseeds=[SPACED[3]]), True),
+             (_req(comment="c", private="1"), True),
+             (_req(announce=[SPACED[2]], url_list=[SPACED[5]], httpseeds=[SPACED[6]]), False),
+             (_req(announce=[SPACED[8]], httpseeds=[SPACED[9]]), True),
+             (_req(url_list=""), True)]),
+    -6: (3, [(_req(announce=[SPACED[10]], url_list=["http://w/one", "http://w/two"]), True),
+             (_req(url_list=[SPACED[4]], httpseeds=["http://h/1", SPACED[1]]), True),
+             (_req(announce=["http://t.example/announce", SPACED[0]], httpseeds=[SPACED[7]]), True),
+             (_req(announce=[SPACED[11]], url_list=[SPACED[12]], httpseeds=[SPACED[13]]), True),
+             (_req(announce="", comment="x"), True)]),
+    -7: (1, [(_one("url-list", SPACED[0]), True)]),
+    -8: (2, [(_one("httpseeds", SPACED[0]), True)]),
+    -9: (3, [(_one("announce", SPACED[0]), True)]),
+}
 
 
 def gen_request(rng):
@@ -34,6 +83,13 @@ def gen_request(rng):
                 ["http://t/it's", 'http://t/"quoted"', "http://t/back\\slash", "http://t/a'b'c"]
             urls = rng.sample(pool, rng.randrange(1, 4))
             req[f] = urls if rng.random() < 0.6 else " ".join(urls)
+            if isinstance(req[f], list) and rng.random() < 0.3:
+                # list form only: values with blanks / tabs inside (a string value is, by the
+                # library's convention, a white-space separated list, so it cannot carry them)
+                k = rng.randrange(len(urls))
+                req[f] = urls[:k] + [rng.choice(SPACED)] + (urls[k + 1:] if rng.random() < 0.6 else [])
+                if rng.random() < 0.5:
+                    req[f] = req[f][k:k + 1]
         elif f == "private":
             req[f] = "1"
         else:
@@ -122,7 +178,10 @@ def _canonical(raw):
 def run_case(run, drv, case_seed, max_len):
     rng = random.Random(case_seed)
     with sandbox("c07") as box:
-        if case_seed < 0:
+        fixed = FIXED.get(case_seed)
+        if fixed:
+            m = metas.make_meta(rng, box, version=fixed[0])
+        elif case_seed < 0:
             # fixed shapes every run includes: a foreign metafile whose info dictionary is NOT in
             # sorted key order, edited by requests that name only trackers / seeds
             rng.force_unsorted = True
@@ -132,13 +191,21 @@ def run_case(run, drv, case_seed, max_len):
         case = {"case_seed": case_seed, "version": m["version"], "opts": m["opts"],
                 "creator": m["creator"], "requests": []}
         nreq = rng.randrange(1, max_len + 1)
+        if fixed:
+            nreq = len(fixed[1])
         shapes = []
+        spaced_single = set()
         for step in range(nreq):
             req = gen_request(rng)
             if case_seed < 0 and step == 0:
                 req = {"announce": ["http://new.tracker/a"], "url-list": None, "httpseeds": ["http://h/1"],
                        "comment": None, "source": None, "private": None}
             via_cli = rng.random() < 0.4
+            if fixed:
+                req, via_cli = dict(fixed[1][step][0]), fixed[1][step][1]
+            for f in LIST_FIELDS:
+                if isinstance(req[f], list) and len(req[f]) == 1 and any(c.isspace() for c in req[f][0]):
+                    spaced_single.add(("cli:" if via_cli else "lib:") + f)
             raw0 = open(m["path"], "rb").read()
             before = refspec.lenient_decode(raw0)
             case["requests"].append({"req": req, "cli": via_cli})
@@ -213,7 +280,8 @@ def run_case(run, drv, case_seed, max_len):
     run.case([m["version"], sorted(m["opts"]), shapes],
              nreq >= 2 and any("" in r["req"].values() or None in r["req"].values()
                                for r in case["requests"]),
-             sample=case, classes=[f"v{m['version']}", f"requests={nreq}"])
+             sample=case, classes=[f"v{m['version']}", f"requests={nreq}"] +
+             [f"single-value-with-blank:{x}" for x in sorted(spaced_single)])
 
 
 def foreign_meta(rng, box):
@@ -277,7 +345,7 @@ def run(tier, seed, replay=None):
     run = Run("C07", tier, seed, RULE)
     drv = Driver()
     seeds = [replay["case"]["case_seed"]] if replay else \
-        [-1, -2, -3] + [run.rng.randrange(10 ** 9) for _ in range(100 if tier == "quick" else 800)]
+        [-1, -2, -3] + sorted(FIXED, reverse=True) + [run.rng.randrange(10 ** 9) for _ in range(100 if tier == "quick" else 800)]
     for s in seeds:
         run_case(run, drv, s, 8 if tier == "quick" else 20)
     for (case, step, raw1), req, out in drv.run():
